@@ -33,7 +33,7 @@ void splinetable<Alloc>::permuteDimensions(const std::vector<size_t>& permutatio
 	std::unique_ptr<uint64_t[]> t_nknots(new uint64_t[ndim]);
 	std::unique_ptr<double_ptr[]> t_knots(new double_ptr[ndim]);
 	std::unique_ptr<double[]> t_periods(periods ? new double[ndim] : nullptr);
-	std::unique_ptr<double*[],void(*)(double**)> t_extents(new double*[ndim],
+	std::unique_ptr<double*[],void(*)(double**)> t_extents(new double*[ndim](), //zeroed, since the deleter looks at the first entry
 		[](double** p){
 			if(p && p[0])
 				delete[] p[0];
